@@ -246,6 +246,30 @@ func converts(warmup bool, docs ...string) func(cfg core.Cfg) *Instance {
 	}
 }
 
+// CollideA and CollideB: one two-line paragraph per rune r: "x r LF r y".
+var CollideA, CollideB = collideDoc(0x4E00, 0x21), collideDoc(0x5200, 0x6821)
+
+func collideDoc(cjkBase, punctBase rune) string {
+	var b strings.Builder
+	for k := rune(0); k < 1024; k++ {
+		r := cjkBase + k
+		b.WriteString("x" + string(r) + "\n" + string(r) + "y\n\n")
+	}
+	for k := rune(0); k < 94; k++ {
+		r := punctBase + k
+		if r < 0x80 {
+			switch r {
+			case '<', '>', '&', '[', ']', '*', '_', '`', '\\', '#', '-', '+', '=', '|', '~', ':', '!', '"', '\'':
+				// keep the paragraph a paragraph: punctuation that starts blocks or inlines is escaped or wrapped in letters
+				b.WriteString("x\\" + string(r) + "\nz\\" + string(r) + "y\n\n")
+				continue
+			}
+		}
+		b.WriteString("x" + string(r) + "\nz" + string(r) + "y\n\n")
+	}
+	return b.String()
+}
+
 // HistoryDocs are converted one after the other, before the goroutines start, by scenario S8: documents that leave
 // unusual parser state behind when they end (open containers and fences ended by other openers, empty and marker-only
 // list items, unclosed delimiters and brackets, definitions without uses, footnotes without references, tables cut short,
@@ -334,6 +358,7 @@ var Scenarios = []Scenario{
 			return &Instance{Bodies: []func() Result{convertBody(a, twoInst1), convertBody(b, twoInst2), convertBody(a, twoInst3)}}
 		}},
 	{"S11-same-document", "three goroutines Convert the SAME document, each from its own buffer which it overwrites after its call has returned: a result memoised per source text by one call must not point into that call's buffer", 3, converts(false, tiny1, tiny1, tiny1)},
+	{"S12-colliding-runes", "two goroutines Convert documents whose soft line breaks are flanked by runes chosen to collide in any table indexed by the low 10 (or fewer) bits of the code point: goroutine 0 uses U+4E00..U+51FF and the ASCII punctuation, goroutine 1 uses U+5200..U+55FF and U+6821..U+687E (same residues modulo 1024); East Asian width / line-break classification caches are the target", 2, converts(false, CollideA, CollideB)},
 	{"S7-default-instance", "two goroutines call the package-level goldmark.Convert (shared default instance)", 2,
 		func(cfg core.Cfg) *Instance {
 			mk := func(doc string) func() Result {
